@@ -6,6 +6,7 @@ Line-protocol driver for C10 (requests and responses are flat int lists, see `ha
 
   pack <mol>                        -> ok <bytes>            | err <kind>
   wf <mol>                          -> ok 1|0   (the executable format-limit test `wfb`, hypothesis of the theorems)
+  cok <k> {n p q}*k <mol>           -> ok 1|0   (`centersOKb`: hypothesis of the stereo round-trip theorem)
   unpack <bytes>                    -> ok <decoded>          | err <kind>
   unpacka <k> {n p q}*k <bytes>     -> ok <decoded> after the cis/trans re-attachment with `centers`
   packlen <bytes>                   -> ok <n>
@@ -108,6 +109,16 @@ def handle (line : String) : String :=
         match parseMol xs with
         | some (m, []) => if wfb m then "ok 1" else "ok 0"
         | _ => "err parse"
+      | "cok" =>
+        match xs with
+        | k :: rest =>
+          match parseTriples k.toNat rest with
+          | some (cs, r2) =>
+            match parseMol r2 with
+            | some (m, []) => if centersOKb m cs then "ok 1" else "ok 0"
+            | _ => "err parse"
+          | none => "err parse"
+        | [] => "err parse"
       | "unpack" => showRes showDecoded (decode (bytesOf xs))
       | "unpacka" =>
         match xs with
